@@ -84,7 +84,7 @@ class World:
         forms = [(R, self.scratch), ('out', E), ('e/out', D), ('./out/', E), ('../e/out', E),
                  ('out/../out', E), (R + '/', self.scratch)]
         if self.root_exists:
-            forms += [('.', R), ('../out', os.path.join(R, 'pre')), ('..', os.path.join(R, 'pre'))]
+            forms += [('.', R), ('../../out', os.path.join(R, 'pre')), ('..', os.path.join(R, 'pre'))]
         return forms
 
     def abs_targets(self):
